@@ -120,3 +120,34 @@ fn c01_k4_chv2_release() {
     kani::cover!(!participant, "release of an unrelated key");
     core::mem::forget(c);
 }
+
+// @harness name=c01_k4_chv2_release_while_ignoring prop=C01 tier=quick timeout=1800
+// @encodes ChordsV2::drain_inputs (the ticks_to_ignore_chord > 0 path), ChordsV2::tick_chv2 bookkeeping
+// @inst T = u8
+// @bounds one active, already consumed (Releasable) chord over keys {10, 11} with key 10 still to be released; chord activation is currently being ignored (ignore timer 5, as after typing a non-chord key); the queue holds the release of key 10
+// @assumes none beyond the bounds
+// @spec a participant's release that leaves the chord queue must be applied to the active chord: afterwards key 10 is no longer awaited (and, being the last one, the chord is marked released) -- otherwise the chord's output stays pressed forever although every key is up
+#[kani::proof]
+#[kani::unwind(4)]
+fn c01_k4_chv2_release_while_ignoring() {
+    let mut c = vk_cv2_new();
+    // concrete ignore timer: with a symbolic one CBMC also explores the (infeasible) press-processing path
+    c.ticks_to_ignore_chord = 5;
+    let mut remaining: HVec<u16, SMOL_Q_LEN> = HVec::new();
+    let _ = remaining.push(10);
+    let _ = c.active_chords.push(ActiveChord {
+        coordinate: 851,
+        remaining_keys_to_release: remaining,
+        participating_keys: &VK_CV2_KEYS0,
+        action: &VK_CV2_ACT,
+        status: Releasable,
+        delay: 0,
+    });
+    let _ = c.queue.push_back(Queued::new_release(0, 10));
+    let mut q = SmolQueue::new();
+    c.drain_inputs(&mut q, 0);
+    assert!(q.len() == 1 && q[0].event == Event::Release(0, 10), "the release is forwarded to the layout");
+    assert!(c.active_chords[0].remaining_keys_to_release.is_empty(), "and it is applied to the active chord");
+    assert!(c.active_chords[0].status == Released);
+    core::mem::forget(c);
+}
